@@ -55,10 +55,16 @@ def grid(tier):
     return sorted(set(out))
 
 
+def fa(c):
+    """name of the first named field: `a`, or - a seeded third of the cases - an identifier whose later characters are
+    non-ASCII XID_Continue-only ones (vowel signs / virama: a placeholder naming it must still parse as an identifier)"""
+    return c.get("_fa", "a")
+
+
 def literal(c):
     lit = c["lit"]
     named = c["named"]
-    f0 = "a" if named else "_0"
+    f0 = fa(c) if named else "_0"
     ref = {"next": "", "pos0": "0", "pos1": "1", "pos2": "2", "name_field": f0, "name_other": "v"}[lit["ref"]]
     spec = MOD[lit["mod"]] + LETTER[lit["ty"]]
     colon = ":" if (spec or lit["mod"] in ("colon", "colon_ws")) else ""
@@ -69,7 +75,7 @@ def literal(c):
 
 def args_text(c):
     named = c["named"]
-    f0, f1 = ("a", "b") if named else ("_0", "_1")
+    f0, f1 = (fa(c), "b") if named else ("_0", "_1")
     lit = c["lit"]
     alias = {"name_field": f0, "name_other": "v"}.get(lit["ref"], "v")
     a = c["args"]
@@ -92,6 +98,10 @@ SHARED = {"none": "", "bare_variant": "{_variant}", "wrap": "[{_variant}]", "def
 
 
 def key_of(c):
+    return _key_of(c).replace(c["_fa"], "a~nonascii") if "_fa" in c else _key_of(c)      # keys stay ASCII
+
+
+def _key_of(c):
     sh = f"enum-level {SHARED[c['sh']]}|" if c["sh"] != "none" else ""
     if not c["hasAttr"]:
         return f"{sh}{c['D']}|{'n' if c['named'] else 't'}{c['nfields']}|<no attribute>"
@@ -106,8 +116,8 @@ def decl(c):
     if c.get("as_variant"):
         # the same attribute on an enum variant (display.rs / debug.rs take a different route for enums)
         if named:
-            body = "{ " + ", ".join(f"{nm}: P" for nm in ["a", "b"][:n]) + " }"
-            init = "S::V { " + ", ".join(f"{nm}: P({i + 1})" for i, nm in enumerate(["a", "b"][:n])) + " }"
+            body = "{ " + ", ".join(f"{nm}: P" for nm in [fa(c), "b"][:n]) + " }"
+            init = "S::V { " + ", ".join(f"{nm}: P({i + 1})" for i, nm in enumerate([fa(c), "b"][:n])) + " }"
         else:
             body = "(" + ", ".join("P" for _ in range(n)) + ")"
             init = "S::V(" + ", ".join(f"P({i + 1})" for i in range(n)) + ")"
@@ -115,8 +125,8 @@ def decl(c):
         shared = f'#[{ATTR[D]}("{SHARED[c["sh"]]}")]\n' if c["sh"] != "none" else ""
         return f"#[derive(derive_more::{D})]\n{shared}pub enum S {{ {attr}V{body}, {other} }}", init
     if named:
-        body = "{ " + ", ".join(f"pub {nm}: P" for nm in ["a", "b"][:n]) + " }"
-        init = "S { " + ", ".join(f"{nm}: P({i + 1})" for i, nm in enumerate(["a", "b"][:n])) + " }"
+        body = "{ " + ", ".join(f"pub {nm}: P" for nm in [fa(c), "b"][:n]) + " }"
+        init = "S { " + ", ".join(f"{nm}: P({i + 1})" for i, nm in enumerate([fa(c), "b"][:n])) + " }"
     else:
         body = "(" + ", ".join("pub P" for _ in range(n)) + ");"
         init = "S(" + ", ".join(f"P({i + 1})" for i in range(n)) + ")"
@@ -134,9 +144,9 @@ def module(c, key, doc, specs):
             if doc[1] == "Pointer" and c["args"] in ("pos_field", "named_nomatch"):
                 # the argument is the field binding itself, i.e. a reference: formatted directly under Pointer it
                 # prints the field's address (std's `impl Pointer for &T`), with the caller's flags
-                f0 = "a" if c["named"] else "0"
+                f0 = fa(c) if c["named"] else "0"
                 if c.get("as_variant"):
-                    inner = ("match &v { S::V { a, .. } => a, _ => unreachable!() }" if c["named"]
+                    inner = ("match &v { S::V { %s: x, .. } => x, _ => unreachable!() }" % fa(c) if c["named"]
                              else "match &v { S::V(x, ..) => x, _ => unreachable!() }")
                 else:
                     inner = f"&v.{f0}"
@@ -153,7 +163,7 @@ pub fn run() {{
     ];
     let n = rows.len();
     let bad: Vec<(usize, String, String)> = rows.into_iter().filter(|(_, g, w)| g != w).collect();
-    report({json.dumps(key)}, &bad, n);
+    report({json.dumps(key, ensure_ascii=False)}, &bad, n);
 }}"""
 
 
@@ -169,6 +179,8 @@ def run(chk, tier, seed, replay):
     cases = {}
     for rec in r.cases:
         c = rec["c"]
+        if c["named"] and vlib.seeded_pick(json.dumps(c, sort_keys=True), seed + 5, 3) == 0:
+            c["_fa"] = "\u092e\u0942\u0932\u094d\u092f"      # Devanagari: letters, vowel sign, virama
         k = key_of(c)
         if c["sh"] != "none":
             # an enum-level attribute exists on enums only: the variant form, always
